@@ -15,7 +15,7 @@ Proof.
 Qed.
 
 Ltac c05_reduce :=
-  cbv [m7nth v7nth dquad_dk1 dquad_dk1_lim dquad_dL dsbend_dL ddrift_dL dhcor_dangle dvcor_dangle dsol_dk dsol_dk_lim dsol_dL
+  cbv [m7nth v7nth dquad_dk1 dquad_dk1_lim dquad_dL dsbend_dL dsbend_dk1 dsbend_dhx ddrift_dL dhcor_dangle dvcor_dangle dsol_dk dsol_dk_lim dsol_dL
        drot tilt_conj dtilt_conj dtilt_conj_0 dshift_x dshift_y mis_conj dmis_dmx dmis_dmy rZ Z7 zrow
        gen_sbend gen_sol gen_drift base_untilted drift_map hcor_map vcor_map sol_body rot shift mis_entry mis_exit
        mmul madd vadd mscale vscale mvec transpose col v7map v7map2 dot
